@@ -157,6 +157,41 @@ const srcNoEOLInline = "b = 2\na = 1 /* c */"
 const srcNoEOLLine = "b = 2\na = 1 # c"
 const srcNoEOLOwn = "a = 1\nblk {\n  b = 2\n}\n// tail"
 
+// Items with a `#` / `//` comment on their line that are directly followed by
+// comment lines: the lead comment of the next item, a free-standing comment
+// before a blank line, a free-standing comment at the end of a body / of the
+// file; at top level and at two nesting depths. Every such item can be removed
+// by an operation of the alphabet. All comment texts of a file are different.
+const srcCommentRuns = `a = 1 # line a
+# lead b
+b = 2 // line b
+// free root
+
+blk "l" {
+  a = 1 // in line a
+  // in lead blk
+  blk {
+    b = 1 # deep line b
+    # deep free
+
+    c = 2 // deep line c
+    // deep free end
+  } # in line blk
+  # in free
+
+  c = 3 # in line c
+  # in free end
+} # line blk
+# lead other
+other {
+  a = 1 // other line a
+  // other free end
+} // line other
+// lead c
+c = 3 # line c
+# free end
+`
+
 var initialFiles = []initialFile{
 	{name: "empty", src: "", build: hclwrite.NewEmptyFile},
 	{name: "generated", src: srcGenerated, build: func() *hclwrite.File {
@@ -178,6 +213,7 @@ var initialFiles = []initialFile{
 	{name: "noeol-inline-comment", src: srcNoEOLInline, build: parsed(srcNoEOLInline)},
 	{name: "noeol-line-comment", src: srcNoEOLLine, build: parsed(srcNoEOLLine)},
 	{name: "noeol-own-comment", src: srcNoEOLOwn, build: parsed(srcNoEOLOwn)},
+	{name: "comment-runs", src: srcCommentRuns, build: parsed(srcCommentRuns)},
 }
 
 // ---------------------------------------------------------------------------
@@ -314,6 +350,7 @@ func execReal(f *hclwrite.File, ct callerTokens, p prep, op Op) realResult {
 type failure struct {
 	clause string // which clause of the oracle
 	msg    string
+	item   *refwriter.Item // the model item the clause was applied to, where there is one
 }
 
 func failf(clause, format string, a ...any) *failure {
@@ -373,7 +410,9 @@ func diffBody(want, got *refwriter.Body, where string) *failure {
 				return failf("items", "%s item %d: attribute is named %q, model predicts %q (file %s, model %s)", where, i, g.Name, w.Name, describeItems(got), describeItems(want))
 			}
 			if !exprMatches(g.Expr, w) {
-				return failf("expr", "%s attribute %q: expression text %q, model predicts %q", where, w.Name, g.Expr, w.Expr)
+				fl := failf("expr", "%s attribute %q: expression text %q, model predicts %q", where, w.Name, g.Expr, w.Expr)
+				fl.item = w
+				return fl
 			}
 		} else {
 			if w.Type != g.Type {
@@ -413,9 +452,14 @@ func diffBody(want, got *refwriter.Body, where string) *failure {
 // implementation chose to keep, appended unstructured comments).
 func diffComments(want, got *refwriter.Body, where string) *failure {
 	due, have := want.Comments(), got.Comments()
+	is := func(h, c refwriter.Comment) bool {
+		// a comment without a line terminator at the very end of the initial
+		// file may have been continued by what was appended to the file
+		return h.Text == c.Text || (c.Open && strings.HasPrefix(h.Text, c.Text))
+	}
 	j := 0
 	for _, c := range due {
-		for j < len(have) && have[j].Text != c.Text {
+		for j < len(have) && !is(have[j], c) {
 			j++
 		}
 		if j < len(have) {
@@ -426,7 +470,7 @@ func diffComments(want, got *refwriter.Body, where string) *failure {
 		present := false
 		for _, h := range have {
 			texts = append(texts, h.Text)
-			present = present || h.Text == c.Text
+			present = present || is(h, c)
 		}
 		what := "free-standing comment"
 		if c.Kind != "free" {
@@ -567,7 +611,8 @@ func checkAccessors(f *hclwrite.File, m *refwriter.File, bind, probes bool) (fl 
 }
 
 // checkOutput applies the clauses about the serialised file: it parses, its
-// content equals the model, untouched items kept their text.
+// content equals the model, untouched items kept their text, the comments of
+// the initial file are still there unless their item was removed.
 func checkOutput(f *hclwrite.File, m *refwriter.File) (out []byte, fl *failure) {
 	if p := call(func() { out = f.Bytes() }); p != "" {
 		return nil, failf("panic-bytes", "File.Bytes() panics: %s", p)
@@ -588,7 +633,8 @@ func checkOutput(f *hclwrite.File, m *refwriter.File) (out []byte, fl *failure) 
 }
 
 // class names the failing construct and condition: the kind of the operation
-// that was just performed and the oracle clause that failed. Three narrow
+// that was just performed and the oracle clause that failed (for the two
+// expression clauses also whether the attribute is the operation's own). Three narrow
 // classes are carved out for conditions described in FINDINGS.md.
 func class(op Op, p prep, fl *failure) string {
 	switch {
@@ -600,6 +646,10 @@ func class(op Op, p prep, fl *failure) string {
 		return "c12.settype-stale-type-accessor"
 	case fl.clause == "panic-op" && op.K == "settype" && p.blk != nil && p.blk.TypeSets > 0:
 		return "c12.settype-second-call-panics"
+	case (fl.clause == "expr" || fl.clause == "attr-expr") && fl.item != nil && p.body != nil && fl.item != p.body.Attr(op.N) && (op.K != "ren" || fl.item != p.body.Attr(op.N2)):
+		// the expression of an attribute other than the one the operation
+		// was asked to set / rename / remove is wrong
+		return "c12." + op.K + ".other-attribute-" + fl.clause
 	}
 	return "c12." + op.K + "." + fl.clause
 }
